@@ -245,6 +245,7 @@ static void update_statistics_float(carquet_page_writer_t* writer,
                                      const float* values, int64_t count) {
     for (int64_t i = 0; i < count; i++) {
         float v = values[i];
+        if (v != v) continue;  /* NaN never becomes min or max */
         if (!writer->has_min_max) {
             memcpy(writer->min_value, &v, sizeof(v));
             memcpy(writer->max_value, &v, sizeof(v));
@@ -264,6 +265,7 @@ static void update_statistics_double(carquet_page_writer_t* writer,
                                       const double* values, int64_t count) {
     for (int64_t i = 0; i < count; i++) {
         double v = values[i];
+        if (v != v) continue;  /* NaN never becomes min or max */
         if (!writer->has_min_max) {
             memcpy(writer->min_value, &v, sizeof(v));
             memcpy(writer->max_value, &v, sizeof(v));
